@@ -300,6 +300,11 @@ func runScenarioW(t fataler, full *util.MemoryNodeDB, root []byte, model map[str
 	if !bytes.Equal(rep.GetRoot(), root) {
 		t.Fatalf("%s: root changed by the repair", desc())
 	}
+	// first the harness's own walk over the repaired store (it visits every node once, so a store in which nodes sit
+	// under foreign keys cannot send it round in circles as it could the library's recursive walks below)
+	if rw := refmpt.WalkFrom(root, mptkit.GetterOf(damaged), false); len(rw.Missing) > 0 || len(rw.Problems) > 0 || !mptkit.EqualContent(rw.Content, model) {
+		t.Fatalf("%s: after the repair the store resolves %d of %d pairs from the root, %d nodes missing, problems %v", desc(), len(rw.Content), len(model), len(rw.Missing), rw.Problems)
+	}
 	// the same trie object that saw the absent nodes reports a complete trie after the repair
 	if has, err := rep.HasMissingNodes(context.Background()); err != nil || has {
 		t.Fatalf("%s: the repaired trie itself still says HasMissingNodes = %v, %v", desc(), has, err)
